@@ -14,8 +14,8 @@ the future, +1 day +- seconds), passed as aware (UTC or other zone) / naive date
 with ``gmt_offset``, ``relative``, ``shorter``, ``full_format`` varied.  Oracle: the result is parsed
 with an independent regex ``^(\\d+) (second|minute|hour)s? ago$``;
  (a) such a relative-past phrase is returned only if ``date <= now + 60 s``;
- (b) then with e = max(0, now - date): |N*unit - e| <= unit/2 + 1 s ("a nearest integer", ties either
-     way, plus the sub-second truncation of the elapsed time);
+ (b) then with e = max(0, now - date): N*unit lies within unit/2 of some s' in [floor_to_seconds(e), e] ("a nearest
+     integer", ties either way; the elapsed time may be truncated to whole seconds first) -- so e = 0 demands N = 0;
  (c) every call returns a non-empty ``str``;
  (d) ``relative=False`` or ``full_format=True`` never yields a relative-past phrase (documented).
 
@@ -34,6 +34,14 @@ Sensitivity (quick tier, seed 1, scratch copies; all caught = exit 1):
     form with absolute formats, future dates and friendly_number calls in between, plus Hypothesis-generated
     sequences; each result judged independently by the single-call oracle (ninth-round "state carried over"
     mutation testing; before, only the shared en_US instance carried history, by accident)
+  * ``CSVLocale.translate`` plural test ``count != 1`` -> ``count > 1`` (a count of 0 selects the singular message: a date
+    < 1 s old or inside the future clock-skew window renders "1 second ago" instead of "0 seconds ago") ... caught at
+    seeds 1,2,3 (C46.relative_number).  Needed two things: the number clause was too loose (half a unit + 1 s let N = 1
+    pass for an elapsed time of 0; now N*unit must be within half a unit of the elapsed time or of its whole-second
+    truncation) and a deterministic ``boundary`` family: elapsed 0, 1 us, 0.4, 0.5, 0.999, 1, 1.5, 2 s, every phrase
+    switch-over (49/50/51, 59/60/61 s, 89/90/91 s, 49.5/50 min, 59/60 min, 1.5 h, 23.5/24 h, 2 d) -1 us / 0 / +1 us /
+    +0.5 s, and future dates inside / at / beyond the 60 s window, x input forms x locales (tenth-round
+    "boundary" mutation testing)
   * future clock-skew window ``seconds=60`` -> ``seconds=3600`` ........... caught (C46.future_as_past)
   * numeric timestamps converted with ``fromtimestamp(date)`` (process-local naive time labelled UTC) instead of
     ``fromtimestamp(date, datetime.timezone.utc)`` ... caught (C46.future_as_past / C46.relative_number) since the
@@ -61,7 +69,7 @@ RULE = (
 )
 ASSUMPTIONS = [
     "relative-past phrases are exactly the English '<N> second(s)/minute(s)/hour(s) ago' forms (no translations loaded)",
-    "tolerance for 'rounded to a nearest integer': half a unit plus one second (elapsed time is truncated to whole seconds first)",
+    "'rounded to a nearest integer': N*unit within half a unit of the elapsed time or of the elapsed time truncated to whole seconds (ties either way)",
     "naive datetimes denote UTC (documented); int/float are POSIX timestamps",
 ]
 TECHNIQUE = "property-based testing (Hypothesis): read-back / independent phrase parser with injected clock"
@@ -252,7 +260,10 @@ def run_date(ctx, case, loc=None, account=True):
             ctx.fail("C46.future_as_past", {"case": case, "got": out, "seconds_in_future": -e_us / US})
         e = max(0, e_us)
         u = UNIT_US[unit]
-        if abs(n * u - e) * 2 > u + 2 * US:
+        # N must be the nearest integer (ties either way) to the elapsed time in the unit, where the elapsed time may
+        # first have been truncated to whole seconds: N*u within u/2 of some s' in [floor_seconds(e), e].  For an
+        # elapsed time of 0 (also: a date inside the 60 s clock-skew window, clamped to now) that leaves only N = 0.
+        if 2 * n * u < 2 * (e // US) * US - u or 2 * n * u > 2 * e + u:
             ctx.fail("C46.relative_number", {"case": case, "got": out, "elapsed_seconds": e / US,
                                              "elapsed_in_unit": e / u})
     else:
@@ -365,6 +376,37 @@ _hist_step_s = st.one_of(
     st.tuples(st.just("date"), st.sampled_from([US, 60 * US, 3600 * US])),
     st.tuples(st.just("num"), num_value_s),
 )
+# ----------------------------------------------------------------------------- exact boundary family (deterministic)
+BOUNDARY_ELAPSED_US = sorted(set(
+    [0, 1, 400000, 500000, 999000, 999999, US, US + 1, 1500000, 1999999, 2 * US]
+    + [b * US + d for b in (49, 50, 51, 59, 60, 61, 89, 90, 91, 119, 120, 149, 150, 151, 2969, 2970, 2971, 2999, 3000, 3001, 3029, 3030,
+                            3031, 3599, 3600, 3601, 5399, 5400, 5401, 8999, 9000, 9001, 84599, 84600, 84601, 86399, 86400, 86401,
+                            172799, 172800, 172801) for d in (-1, 0, 1, 500000)]
+    # future: inside, at and beyond the 60 s clock-skew window, and far ahead
+    + [-x for x in (1, 400000, 999999, US, 30 * US, 59 * US, 59999999, 60 * US, 60 * US + 1, 61 * US, 3600 * US, 86400 * US,
+                    86430 * US, 400 * 86400 * US)]))
+
+
+def boundary_cases():
+    now_us = 1700000000 * US + 750000
+    for code in ("en_US", "en"):
+        for form in ("aware_utc", "int", "float", "naive"):
+            for e in BOUNDARY_ELAPSED_US:
+                yield ("date", now_us, e, form, 0, 0, True, False, False, code, "UTC")
+    for e in BOUNDARY_ELAPSED_US:  # other zones / options at the same boundaries
+        yield ("date", now_us, e, "aware_tz", 330, -480, True, True, False, "fr_FR", "XST-05:30")
+        yield ("date", now_us, e, "aware_utc", 0, 0, False, False, False, "en_US", "UTC")
+
+
+def run_boundary(ctx, case):
+    labels, nontrivial = run_date(ctx, case, account=False)
+    e = case[2]
+    labels = set(labels) | {"boundary_family"}
+    if -60 * US <= e < US:
+        labels.add("boundary_count_zero")
+    ctx.note(case, labels, nontrivial=True)
+
+
 history_s = st.tuples(
     st.just("history"),
     st.sampled_from(["fresh:en", "fresh:en_US", "fresh:fr_FR", "shared:en_US"]),
@@ -373,12 +415,13 @@ history_s = st.tuples(
     st.lists(_hist_step_s, min_size=2, max_size=6),
 )
 
-PARTS = {"num": run_num, "date": run_date, "history": run_history, "history_random": run_history}
+PARTS = {"num": run_num, "date": run_date, "history": run_history, "history_random": run_history, "boundary": run_boundary}
 
 
 def main(ctx):
     ctx.run_replays(PARTS)
+    ctx.enumerate(boundary_cases(), run_boundary, name="boundary")
     ctx.enumerate(history_cases(), run_history, name="history")
-    ctx.explore(history_s, run_history, ctx.n(600, 60000), name="history_random")
+    ctx.explore(history_s, run_history, ctx.n(600, 30000), name="history_random")
     ctx.explore(num_s, run_num, ctx.n(2500, 200000), name="num")
     ctx.explore(date_s, run_date, ctx.n(5000, 400000), name="date")
